@@ -361,7 +361,12 @@ def build(spec, audio_root=None):
 
     b = Built()
     b.users = [data.User(uuid=u["uuid"], username=u["username"], email=u["email"], name=u["name"], institution=u["institution"]) for u in spec["users"]]
-    b.tags = [data.Tag(term=data.term_from_key(t[0]), value=t[1]) for t in spec["tags"]]
+    def _term(k):
+        # a key written as [name, label] is a full term of some vocabulary (C02 only: AOEF stores the label, so such a term does not survive
+        # a round trip and C01 never generates it); a plain string is the key-derived term
+        return data.Term(name=k[0], label=k[1], definition=f"{k[1]} ({k[0]})") if isinstance(k, list) else data.term_from_key(k)
+
+    b.tags = [data.Tag(term=_term(t[0]), value=t[1]) for t in spec["tags"]]
 
     def feats(fs):
         return [data.Feature(term=data.term_from_key(l), value=v) for l, v in fs]
